@@ -336,3 +336,11 @@ Proof.
   rewrite E. exact H1.
 Qed.
 End Refs.
+
+(* ---------- allOf: the node is generated as the merge of its resolved branches ---------- *)
+Lemma allof_generated idf cf defs f self sub c props addl af items b bs scope m :
+  c_enum c = None -> c_ref c = None -> all_of_schema defs (b :: bs) = Done m ->
+  gen idf cf defs (S f) MInline self sub (Sch c props addl af items (b :: bs) []) scope = gen idf cf defs f MInline self false m scope.
+Proof.
+  intros He Hr Hm. cbn [gen s_con s_any_of s_all_of]. rewrite He, Hr, Hm. reflexivity.
+Qed.
